@@ -189,12 +189,29 @@ def new_db():
     return os.path.join(_dir, f"s{os.getpid()}_{_count}.db")
 
 
-def quick_busy(conn):
-    # environment tuning only: a locked database must surface as an exception after 20 ms, not 5 s
+def connections_of(obj, depth=2):
+    """the sqlite3 connections an object of the code under test holds, found by TYPE among its attributes (and
+    the attributes of the objects it holds), not by attribute name"""
+    found = []
     try:
-        conn.execute("PRAGMA busy_timeout=20;")
-    except Exception:      # noqa: BLE001
-        pass
+        attrs = list(vars(obj).values())
+    except TypeError:
+        return found
+    for v in attrs:
+        if isinstance(v, sqlite3.Connection):
+            found.append(v)
+        elif depth > 0 and type(v).__module__.startswith("vinegar."):
+            found.extend(connections_of(v, depth - 1))
+    return found
+
+
+def quick_busy(obj):
+    # environment tuning only: a locked database must surface as an exception after 20 ms, not 5 s
+    for conn in connections_of(obj):
+        try:
+            conn.execute("PRAGMA busy_timeout=20;")
+        except Exception:      # noqa: BLE001
+            pass
 
 
 # ----------------------------------------------------------------------------- pools
@@ -266,25 +283,41 @@ LIMIT_IDS = ["\ufeffa", "\ufeff", "s" * 255, "s" * 256, "s" * 4096, "\x01\x7f", 
 
 
 class Httpd:
-    """ONE real vinegar HttpServer for the harness process (listening on ::1, ephemeral port); the handler under
-    test is put into its handler list for the request.  Requests are written as raw bytes so that the request
-    target reaches the server exactly as given."""
+    """ONE real vinegar HttpServer for the harness process (listening on ::1, ephemeral port).  It is constructed
+    through its public interface with a single switching request handler that delegates prepare_context /
+    can_handle / handle to the handler under test.  Requests are written as raw bytes so that the request target
+    reaches the server exactly as given."""
     def __init__(self):
         self.server = None
-        self.handlers = []
+        self.switch = None
 
     def port(self):
         if self.server is None:
             from vinegar.http import server as HS
-            self.server = HS.HttpServer(self.handlers, "::1", 0)
+            import pubscan
+
+            class Switch(HS.HttpRequestHandler):
+                current = None
+
+                def prepare_context(self, uri):
+                    return self.current.prepare_context(uri)
+
+                def can_handle(self, uri, context):
+                    return self.current.can_handle(uri, context)
+
+                def handle(self, request_info, body, context):
+                    return self.current.handle(request_info, body, context)
+            self.switch = Switch()
+            self.server = HS.HttpServer([self.switch], "::1", 0)
             self.server.start()
+            self.base = pubscan.base_server(self.server)
             import atexit
             atexit.register(self.server.stop)
-        return self.server._server.server_address[1]
+        return self.base.server_address[1]
 
     def request(self, handler, method, uri, clen, body):
         port = self.port()
-        self.handlers[:] = [handler]
+        self.switch.current = handler
         head = f"{method} {uri} HTTP/1.1\r\nHost: localhost\r\nConnection: close\r\n"
         if clen is not None:
             head += f"Content-Length: {clen}\r\n"
@@ -635,18 +668,18 @@ class C15(Check):
         try:
             for strict in c["stores"]:
                 s = sqlite_store.DataStore(path, strict)
-                quick_busy(s._connection)
+                quick_busy(s)
                 stores.append(s)
             for (pre, fe) in c["sources"]:
                 s = sqlite_source.get_instance({"db_file": path, "key_prefix": pre, "find_system_enabled": fe})
-                quick_busy(s._data_store._connection)
+                quick_busy(s)
                 sources.append(s)
             for h in c["handlers"]:
                 # through the real factory; a configuration the constructor refuses is an observation, not a harness
                 # error: every request to that handler then reports the constructor's exception
                 try:
                     hd = sqlite_update.get_instance_http(handler_config(h, path))
-                    quick_busy(hd._data_store._connection)
+                    quick_busy(hd)
                 except Exception as e:      # noqa: BLE001
                     hd = e
                 handlers.append(hd)
